@@ -5,6 +5,7 @@ import Driver.OpsLeaf
 import Driver.OpsMutate
 import Driver.OpsUpdate
 import Driver.OpsNewMap
+import Driver.OpsXml
 namespace Mxj.Drv
 
 def dispatch (op : String) (args : List String) : Out :=
@@ -22,6 +23,12 @@ def dispatch (op : String) (args : List String) : Out :=
   | "rename" => runP opRename args
   | "upd" => runP opUpd args
   | "newmap" => runP opNewMap args
+  | "xdec" => runP opXdec args
+  | "xconv" => runP opXconv args
+  | "xdoc" => runP opXdoc args
+  | "esc" => runP opEsc args
+  | "unesc" => runP opUnesc args
+  | "cast" => runP opCast args
   | _ => "bad-op"
 
 end Mxj.Drv
